@@ -21,7 +21,7 @@ pushed last is popped first and its whole sub-DAG is processed before the other 
 recursion below (first `comp_high`, then `comp_low`; reversed when the output is flipped on the decision
 variable). Core + Std only.
 -/
-namespace B
+namespace B.Lim
 open Std
 
 /-! ### `apply_with_flip_and_limit` -/
@@ -203,4 +203,4 @@ def cmpImplies (a b : Arr) : Option Ordering :=
     else none
   else none
 
-end B
+end B.Lim
